@@ -453,7 +453,27 @@ fn to_source_span(src: &NamedSource<String>, location: &Location) -> Option<Sour
             char_len = 1;
         }
 
-        char_range_to_byte_range(src.inner(), char_off, char_len)?
+        // Without byte offsets (reader input, errors raised by the scanner) the label goes where
+        // line and column say, as in every other rendering of the error: the parser's character
+        // index counts bytes inside directives and stops counting at a NUL, so it can point
+        // lines away from the reported position. It remains the fallback for a position that
+        // line and column do not resolve (just behind the end of the input).
+        let text = src.inner();
+        match crate::de_snipped::line_col_to_byte_offset(
+            text,
+            location.line() as usize,
+            location.column() as usize,
+        ) {
+            Some(start) => {
+                let end = text[start..]
+                    .char_indices()
+                    .nth(char_len)
+                    .map(|(i, _)| start + i)
+                    .unwrap_or(text.len());
+                (start, end - start)
+            }
+            None => char_range_to_byte_range(text, char_off, char_len)?,
+        }
     };
 
     if byte_len == 0 {
